@@ -287,6 +287,7 @@ GEN2 = "--gen2" in sys.argv
 
 
 def main():
+    global RESULTS
     a = [x for x in sys.argv[1:] if x != "--gen2"]
     cmd = a[0] if a else "report"
     def opt(name, default):
@@ -309,7 +310,13 @@ def main():
         print(json.dumps(by, indent=1), len(ms))
     elif cmd == "run":
         files = opt("--files", ",".join(FILES)).split(",")
-        ms = all_mutants(files)
+        if "--rescreen" in a:
+            # run again the mutants an earlier screening left UNSEEN (after the streams were strengthened)
+            src = opt("--rescreen", "")
+            RESULTS = os.path.join(ROOT, "mutants_results_rescreen.jsonl")
+            ms = [{k: r[k] for k in ("file", "line", "pos", "len", "new", "old", "text")} for r in map(json.loads, open(src)) if r["status"] == "UNSEEN"]
+        else:
+            ms = all_mutants(files)
         done = set()
         if os.path.exists(RESULTS):
             for l in open(RESULTS):
@@ -334,6 +341,8 @@ def main():
                 print(r["status"], r["file"], r["line"], repr(r["old"]), "->", repr(r["new"]), "|", r["text"][:70], flush=True)
         with cf.ThreadPoolExecutor(max_workers=jobs) as ex:
             list(ex.map(work, ms))
+    if "--results" in a:
+        RESULTS = opt("--results", RESULTS)
     if cmd in ("run", "report"):
         st = {}
         uns = []
